@@ -244,10 +244,17 @@ def single_pass_merge(ctx):
                   'chain' % (len(its), [c.ln for c in its]), 'one LinkedList::iter() over the master chain', its[0].where())
         nx = [c for c in fb.calls(r'^std::iter::Iterator::next$') if flags.PAIR_TY in (c.self_ty or '')]
         src = set()
+        copies = []
         for c in nx:
             l, _d = lib.resolve_copy(fb, op_local(c.args[0])) if is_place(c.args[0]) else (None, None)
             sl = backward_slice(fb, [c.args[0]], follow_mutarg=False)
             src |= set(x.b for x in sl.calls if x.is_(r'LinkedList::<[^>]*>::iter$'))
+            # a copy of the iterator is another position in the chain
+            copies += [x for x in sl.calls if x.is_(r'^std::clone::Clone::clone$') and 'Iter<' in (x.self_ty or '')]
+        ctx.check(not copies, 'core::primitives::refresh_coordinate_keys', 'the position in the master chain is never copied',
+                  'a phase of the merge advances a COPY of the iterator over the master chain (clone, line %d): the other phase does not '
+                  'see how far it went and restarts at the head of the chain — the older secrets of the key no longer line up and are dropped'
+                  % (copies[0].ln if copies else 0), 'by_ref(), not clone()', fb.where(copies[0].ln if copies else None))
         ctx.check(len(nx) >= 2 and len(src) == 1, 'core::primitives::refresh_coordinate_keys', 'both phases advance the same iterator',
                   'the %d next() calls over the master chain draw from %d iterators' % (len(nx), len(src)), 'same iterator', fb.where())
     ctx.floor(n, 1, 'merge bodies')
